@@ -183,7 +183,10 @@ def _args(rng: random.Random, n: int, own_params: list[str], intlike_first: bool
             out.append(str(rng.randint(0, 9)))
         elif c < 0.8:
             # constants, a game variable, and constants spelled like a parameter name without its sigil
-            out.append(rng.choice(["CONST_A", "$VAR_B", "ACTOR_X", "CONST_A", "$VAR_B", "ACTOR_X", "p0", "a", "ab", "v"]))
+            pick = rng.choice(["CONST_A", "$VAR_B", "ACTOR_X", "CONST_A", "$VAR_B", "ACTOR_X", "p0", "a", "ab", "v"])
+            if i == 0 and intlike_first and pick in own_params:
+                pick = "CONST_A"  # (a literal spelled like one of the caller's own parameters would hand on whatever that one holds)
+            out.append(pick)
         elif c < 0.9:
             out.append(rng.choice(["'s'", '"t t"', "1.5"]))
         else:
